@@ -262,7 +262,7 @@ func c05TransposeEval(e *Env, c c05Transpose) {
 			boundary = tick
 			break
 		}
-		tick += 960
+		tick += int64(f1.Division)
 	}
 	n1, o1 := notesAndRest(f1)
 	n2, o2 := notesAndRest(f2)
